@@ -391,6 +391,15 @@ example : IP.findInsertionPoints Gen.QueryBatchFacts.expected ["a", "bs"]
     [("a", .obj [("bs", .arr [.obj [("id", .str "x")], .obj [("id", .num "7")]])])] []
     = .ok [["a", "bs:0#x"], ["a", "bs:1#7"]] := by rfl
 
+/-- a `null` element of a list answer: passed over with the guard `if iEntry == nil { continue }` (the points
+    collected so far stay, the walk goes on; which shape the code has is the regenerated fact
+    `Gen.Nulls.findIPSkipsNullElements`, C01 is the property that needs it) — and without the guard an error
+    like any other non-map element; never a panic (`C09_fip_no_panic` holds for both shapes) -/
+example (rec : Obj → List String → G (List (List String))) (pts : List (List String)) :
+    IP.entryStep true "bs" true ["a"] rec (.ok pts) (.null, 3) = .ok pts
+    ∧ IP.entryStep false "bs" true ["a"] rec (.ok pts) (.null, 3)
+        = .error (some (IP.ferr "entry-not-map" "entry in result wasn't a map")) := ⟨rfl, rfl⟩
+
 /-- a successful `queryBatch` returns exactly one result per request — the hypothesis `hlen` under which
     `C11_any_order` shows the chunked path's reducer never panics and loses nothing -/
 theorem C09_results_length (f : Facts) (url : String) (n : Nat) (w : Wire) (results : List (Option Obj))
